@@ -294,6 +294,19 @@ impl HeapDefault<Owned> for LocalHeapRB<Owned> { fn mk_default(_n: usize) -> Sel
 fn heap_default<T, B: HeapDefault<T>>(n: usize) -> B { B::mk_default(n) }
 
 #[cfg(not(feature = "vmem"))]
+trait StackDefault<T> { fn mk_default() -> Self; }
+#[cfg(not(feature = "vmem"))]
+impl<const N: usize> StackDefault<u64> for ConcurrentStackRB<u64, N> { fn mk_default() -> Self { Default::default() } }
+#[cfg(not(feature = "vmem"))]
+impl<const N: usize> StackDefault<u64> for LocalStackRB<u64, N> { fn mk_default() -> Self { Default::default() } }
+#[cfg(not(feature = "vmem"))]
+impl<const N: usize> StackDefault<Owned> for ConcurrentStackRB<Owned, N> { fn mk_default() -> Self { unreachable!() } }
+#[cfg(not(feature = "vmem"))]
+impl<const N: usize> StackDefault<Owned> for LocalStackRB<Owned, N> { fn mk_default() -> Self { unreachable!() } }
+#[cfg(not(feature = "vmem"))]
+fn stack_default<T, B: StackDefault<T>>() -> B { B::mk_default() }
+
+#[cfg(not(feature = "vmem"))]
 macro_rules! stack_run_n {
     ($B:ident, $T:ty, $N:literal, $cfg:expr, $ls:expr, $out:expr) => {{
         let cfg = $cfg;
@@ -301,6 +314,7 @@ macro_rules! stack_run_n {
         let all_zero = cfg.init.iter().all(|v| *v == 0);
         let r = std::panic::catch_unwind(|| -> $B<$T, $N> {
             if cfg.ctor == "zeroed" || (all_zero && <$T as Item>::OWNED) { unsafe { $B::<$T, $N>::new_zeroed() } }
+            else if cfg.ctor == "default" { stack_default::<$T, $B<$T, $N>>() }
             else {
                 let v = build::<$T>(&cfg.init);
                 let arr: [$T; $N] = match v.try_into() { Ok(a) => a, Err(_) => panic!("len") };
